@@ -39,11 +39,20 @@ def work(task):
     binname = task.get("binname", "x_core")
     rng = Rng("%s/C10/%s/%s/%s" % (task["seed"], b, ty, binname))
     cases = []
+    # sign-sensitive and non-finite f64 amounts in every combination: "plain amount arithmetic" includes -0.0, inf and NaN
+    SPECIAL = ["8000000000000000", "0000000000000000", "3ff0000000000000", "bff0000000000000", "7ff0000000000000",
+               "fff0000000000000", "7ff8000000000000", "0000000000000001", "8000000000000001"]
+    fixed = [(x, y) for x in SPECIAL for y in SPECIAL] if b == "f64" else [("0:0", "0:0"), ("0:0", "5:0"), ("5:0", "0:0"), ("0:3", "-25:1")]
     for (u, v) in cl.unit_pairs(ent):
-        for i in range(task["n"]):
+        # a single-unit type has one unit pair only: give it the workload a multi-unit type gets over all its pairs
+        n = task["n"] * (12 if ent["kind"] == "single" else 1)
+        for i in range(n + len(fixed)):
             x, cx = c08.any_amount(rng, b)
             kind = rng.choice(["equal_amounts", "independent", "independent", "plain"])
-            if kind == "equal_amounts":
+            if i >= n:
+                x, y = fixed[i - n]
+                kind = "special"
+            elif kind == "equal_amounts":
                 y = x
             elif kind == "plain":
                 from amounts import short_decimal
